@@ -112,12 +112,25 @@ def run(ctx):
     D = pairwise_distances(X.astype(np.float64))
     idx, dist = gen.exact_knn(D, 8)
     thr = float(np.quantile(dist[:, 1:], 0.6))
-    for dt in (np.float32, np.float64):
-        ki, kd = idx.copy(), dist.astype(dt)
-        b = {"caller knn indices": snap_any(ki), "caller knn dists": snap_any(kd), "caller X": snap_any(X)}
-        umap.UMAP(n_neighbors=6, precomputed_knn=(ki, kd), disconnection_distance=thr, n_epochs=5, random_state=1).fit(X)
-        a = {"caller knn indices": snap_any(ki), "caller knn dists": snap_any(kd), "caller X": snap_any(X)}
-        report("fit:precomputed_knn", "fit", diff_names(b, a), {"knn_dtype": str(np.dtype(dt)), "threshold": thr})
+    near = D <= np.sort(D, axis=1)[:, [12]]
+    Dcsr = scipy.sparse.csr_matrix(np.where(near | near.T, D, 0).astype(np.float32))      # symmetric, >= 12 stored neighbours per row
+    for data_form in ("dense-data", "csr-precomputed-distances"):
+        for dt, it in ((np.float32, np.int64), (np.float64, np.int64), (np.float64, np.int32), (np.float32, np.int32)):
+            for width in (8, 6):
+                ki, kd = idx[:, :width].astype(it), dist[:, :width].astype(dt)
+                Xin = X if data_form == "dense-data" else Dcsr.copy()
+                kw = dict(n_neighbors=6, precomputed_knn=(ki, kd), disconnection_distance=thr, n_epochs=5, random_state=1)
+                if data_form != "dense-data":
+                    kw["metric"] = "precomputed"
+                b = {"caller knn indices": snap_any(ki), "caller knn dists": snap_any(kd), "caller X": snap_any(Xin)}
+                case = {"data": data_form, "knn_dtype": str(np.dtype(dt)), "index_dtype": str(np.dtype(it)), "columns": width, "threshold": thr}
+                try:
+                    umap.UMAP(**kw).fit(Xin)
+                except Exception as e:  # noqa
+                    ctx.violation("fit", f"fit with precomputed_knn raised {type(e).__name__}: {e}", case)
+                    continue
+                a = {"caller knn indices": snap_any(ki), "caller knn dists": snap_any(kd), "caller X": snap_any(Xin)}
+                report("fit:precomputed_knn", "fit", diff_names(b, a), case)
     # fit on a precomputed distance matrix (dense float32-C needs no conversion copy; sparse too)
     for name, Dv in [("precomputed-float32-C", np.ascontiguousarray(D, dtype=np.float32)), ("precomputed-float64", D.copy()),
                      ("precomputed-csr", scipy.sparse.csr_matrix(np.where(D < np.quantile(D, 0.5), D, 0).astype(np.float32)))]:
@@ -152,8 +165,10 @@ def run(ctx):
             a = dict(snap_model(m), **{"caller X": snap_any(Z)})
             report("inverse_transform", "inverse", diff_names(b, a), {"model": mname})
     A, B = models["euclid-e11"], models["euclid-e200"]
+    # same samples, same neighbours, different strengths: graphs with an identical sparsity pattern
+    A2 = umap.UMAP(n_neighbors=6, n_epochs=11, random_state=3, set_op_mix_ratio=0.5).fit(X)
     for opname, fn, prog in [("sub", lambda p, q: p - q, "sub"), ("add", lambda p, q: p + q, "addmul"), ("mul", lambda p, q: p * q, "addmul")]:
-        for (l, r, tag) in [(A, B, "A,B"), (B, A, "B,A")]:
+        for (l, r, tag) in [(A, B, "A,B"), (B, A, "B,A"), (A, A2, "A,A' (identical sparsity pattern)"), (A, A, "A,A")]:
             b = {"graph_": snap_sparse(l.graph_), "embedding_": snap_any(l.embedding_), "_raw_data": snap_any(l._raw_data),
                  "other.graph_": snap_sparse(r.graph_), "other.embedding_": snap_any(r.embedding_)}
             try:
